@@ -3,7 +3,7 @@
    (r, r) is a valid signature of z = 5 r under Q whenever r = x(5 G + Q) mod n. *)
 From Coq Require Import ZArith List Bool.
 From Coq.Strings Require Import Byte.
-From Verif Require Import Lib.Bytes Crypto.Secp256k1 Model.Wire Model.Der Model.Ecdsa.
+From Verif Require Import Lib.Bytes Crypto.Secp256k1 Model.Wire Model.Der Model.Ecdsa Proofs.Ecdsa.
 Import ListNotations.
 Open Scope Z_scope.
 
@@ -28,7 +28,8 @@ Lemma w1_fixed_low_s :
   secp_n - w1_s_high <= (secp_n - 1) / 2.
 Proof. split; [vm_compute; reflexivity|]. vm_compute. discriminate. Qed.
 
-(* ---- W2: a VALID, BIP66-strict signature of 49 bytes (r = s = x(G/2), 21 bytes each) is refused *)
+(* ---- W2: a VALID, BIP66-strict signature of 49 bytes (r = s = x(G/2), 21 bytes each): refused by the dispatch
+        before fix C13-2, read and verified after it *)
 Definition w2_Q : Z * Z :=
   (46399714550823657646711952010527975805134803763457644396793103212103067379801,
    6125845666773179963892531182437442069328062343348846759804357885092162958588).
@@ -36,10 +37,22 @@ Definition w2_r : Z := 86918276961810349294276103416548851884759982251107.
 Definition w2_dg : bytes := be_bytes 32 (5 * w2_r).
 Definition w2_sig : bytes := der_enc w2_r w2_r ++ [x01].
 
-Lemma w2_short_der_rejected :
-  short_der w2_sig = true /\ lax_der w2_sig = false /\ coords_reduced w2_Q = true /\
-  lib_verify w2_dg w2_sig w2_Q = None /\ spec_verify (lib_z w2_dg) w2_sig w2_Q = Some true.
+Lemma w2_short_der :
+  length w2_sig = 49%nat /\ is_strict_der w2_sig = true /\
+  lib_parse_prefix w2_sig = None /\ lib_parse w2_sig = Some (w2_r, w2_r, 1) /\
+  der64 w2_sig = false /\ lax_der w2_sig = false /\ coords_reduced w2_Q = true /\
+  lib_verify w2_dg w2_sig w2_Q = Some true /\ spec_verify (lib_z w2_dg) w2_sig w2_Q = Some true.
 Proof. conj_vm. Qed.
+
+(* ---- W6: a BIP66-strict signature of exactly 64 bytes (29-byte r, 28-byte s) is read as raw r||s *)
+Definition w6_sig : bytes := der_enc (2 ^ 223) (2 ^ 222) ++ [x01].
+
+Lemma w6_der64_read_as_raw :
+  length w6_sig = 64%nat /\ der64 w6_sig = true /\ lax_der w6_sig = false /\
+  Proofs.Ecdsa.filt (spec_parse w6_sig) = Some (2 ^ 223, 2 ^ 222, 1) /\
+  Proofs.Ecdsa.filt (lib_parse w6_sig) = Some (of_be (firstn 32 w6_sig), of_be (skipn 32 w6_sig), 1) /\
+  of_be (firstn 32 w6_sig) <> 2 ^ 223.
+Proof. repeat match goal with |- _ /\ _ => split end; vm_compute; try reflexivity. discriminate. Qed.
 
 (* ---- W3: Q = 3 G, r = s = x(8 G); strict encoding (agreement, non-vacuity) and one spelled with a junk byte
         inside the SEQUENCE after s (accepted by the library, refused by BIP66) *)
@@ -52,12 +65,12 @@ Definition w3_strict : bytes := der_enc w3_r w3_r ++ [x01].
 Definition w3_lax : bytes := x30 :: x45 :: skipn 2 (der_enc w3_r w3_r) ++ [x00; x01].
 
 Lemma w3_strict_agrees :
-  short_der w3_strict = false /\ lax_der w3_strict = false /\ coords_reduced w3_Q = true /\
+  der64 w3_strict = false /\ lax_der w3_strict = false /\ coords_reduced w3_Q = true /\
   lib_verify w3_dg w3_strict w3_Q = Some true /\ spec_verify (lib_z w3_dg) w3_strict w3_Q = Some true.
 Proof. conj_vm. Qed.
 
 Lemma w3_lax_der_accepted :
-  short_der w3_lax = false /\ lax_der w3_lax = true /\ is_strict_der w3_lax = false /\
+  der64 w3_lax = false /\ lax_der w3_lax = true /\ is_strict_der w3_lax = false /\
   lib_verify w3_dg w3_lax w3_Q = Some true /\ spec_verify (lib_z w3_dg) w3_lax w3_Q = None.
 Proof. conj_vm. Qed.
 
@@ -70,7 +83,7 @@ Definition w4_dg : bytes := be_bytes 32 ((5 * w4_r) mod secp_n).
 Definition w4_sig : bytes := der_enc w4_r w4_r ++ [x01].
 
 Lemma w4_unreduced_key_accepted :
-  short_der w4_sig = false /\ lax_der w4_sig = false /\ coords_reduced w4_Q = false /\
+  der64 w4_sig = false /\ lax_der w4_sig = false /\ coords_reduced w4_Q = false /\
   lib_verify w4_dg w4_sig w4_Q = Some true /\ spec_verify (lib_z w4_dg) w4_sig w4_Q = None /\
   spec_verify (lib_z w4_dg) w4_sig (1, w4_y) = Some true.
 Proof. conj_vm. Qed.
